@@ -84,16 +84,23 @@ add("C15","differential layer over all families + fixed/boxed + const/runtime gr
     "Route equivalence as an assertion over everything the families explore: within every group of forms of one operation (inherent, trait, operators by value/reference/assigning, Wrapping, Checked, ct vs _vartime, precomputed vs one-shot; ~870 form pairs, listed with counts in the evidence) every form must be bit-identical to the group's first form (value, flags, none, panic alike); plus Uint<N> vs BoxedUint(64N) for N in {1,2,3,4,8,16,32,64} on ~55 operations incl. the documented result precision, and ~50 const fn operations evaluated by the compiler in const items vs the same expressions at run time behind black_box (5x5 grids, widths 1 and 4). Quick tier: every 6th index of each family's quick enumeration; thorough: complete.",
     ASSUME, "bounded-exhaustive differential enumeration between routes of the real code (no reference model needed)", "DESIGN.md §3.C15")
 
+add("C01","E3 trace equivalence over enumerated secrets (SanitizerCoverage build + valgrind lackey)","exploration",
+    "A table of ~290 monomorphic #[inline(never)] wrappers around the non-vartime public operations of Limb, Uint (1,2,4 limbs quick; +8,16 thorough; 32/64 for the Karatsuba multiplications), Int, BoxedUint, NonZero/Odd constructors, MontyForm / ConstMontyForm / BoxedMontyForm (modulus public) plus the documented-vartime operations with their named operand public. For every row and every assignment of its public parameters (shift amounts, bit bounds, divisors, moduli) ALL secret tuples of the row's alphabet (FULL(n<=2,L5), RUNS(n,L3,2), powers of two, bit lengths multiple of 64, secret shift amounts / bit indices incl. 0, limb multiples, BITS-1 and overflow) are executed and the complete leakage traces compared in two layers: (A) LLVM SanitizerCoverage callbacks at opt-level 3 - every edge guard, load/store address, gep index and udiv/sdiv operand; (B) the uninstrumented optimized binary under valgrind lackey - every instruction address and data address. Every node at which a new trace leaves the trie of traces seen so far is symbolised and attributed to a site function; known divergences are listed per (row, layer, site).",
+    "Trace model = control flow + data addresses + division operands; micro-architectural timing is outside it. Verdict is about this toolchain's optimized build of these monomorphisations. Secret values outside the alphabets are not explored. The alphabets are independent of VERIF_SEED so that the set of divergence sites is reproducible. A new leak at a site function that is already a known finding for the same row and layer is masked.",
+    "exhaustive enumeration of secret assignments per public-parameter group with full leakage-trace comparison of the real optimized code (dynamic trace equivalence; no sampling, no solver)", "DESIGN.md §3.C01")
+C["C01"]["quick_cmd"] = "./check C01 quick"
+
 NOT_YET = {}
 ALL = [f"C{i:02d}" for i in range(1,21)]
 import os, sys
 not_app = [dict(property_id=p, reason="check not built yet in this round (planned, see DESIGN.md §8); nothing is claimed for it")
            for p in ALL if p not in C]
 m = dict(version=1,
-    setup_cmd="cd /verif/harness && CARGO_NET_OFFLINE=true CARGO_TARGET_DIR=/verif/target/rel cargo build --offline --release --bins && CARGO_NET_OFFLINE=true CARGO_TARGET_DIR=/verif/target/dbg cargo build --offline --profile dbg --bins",
+    setup_cmd="cd /verif/harness && CARGO_NET_OFFLINE=true CARGO_TARGET_DIR=/verif/target/rel cargo build --offline --release --bins && CARGO_NET_OFFLINE=true CARGO_TARGET_DIR=/verif/target/dbg cargo build --offline --profile dbg --bins && /verif/harness_ct/build.sh san && /verif/harness_ct/build.sh rel",
     hooks=dict(guard="rustcrypto_crypto_bigint_verif", enable="none needed: all checks drive the public API of /repo as a path dependency (no hooks in /repo)",
                baseline_off_cmd="cd /repo && cargo test --workspace --no-fail-fast --offline", source_commits=[], add_only=True),
-    engines=[dict(name="vharness", path="/verif/harness", serves_properties=sorted(C), kind_free_text="Rust harness crate path-depending on /repo: shape-exhaustive enumerators (E1), stateright explicit-state search (E2), scripted RNG (E4), grammar-exhaustive codec explorer (E5)")],
+    engines=[dict(name="vct", path="/verif/harness_ct", serves_properties=["C01"], kind_free_text="constant-time trace harness: operation table, SanitizerCoverage callbacks (layer A), marker driver + lktrace consumer for valgrind lackey (layer B), orchestrated by /verif/check_ct"),
+             dict(name="vharness", path="/verif/harness", serves_properties=sorted(k for k in C if k != "C01"), kind_free_text="Rust harness crate path-depending on /repo: shape-exhaustive enumerators (E1), stateright explicit-state search (E2), scripted RNG (E4), grammar-exhaustive codec explorer (E5)")],
     checks=[C[k] for k in sorted(C)],
     notes="Model-checking family: every check enumerates a stated finite space of behaviours of the real code completely (no sampling) and compares each with a reference model. See DESIGN.md.",
     not_applicable=not_app)
